@@ -81,6 +81,16 @@ CHECKS["C05"] = dict(
          "sample goes through cbi-cov.",
     design="3/C05")
 
+CHECKS["C17"] = dict(
+    technique="TLA+ reference scanner for free-form Fortran (FScan) as oracle over TLC-enumerated line sequences, "
+              "replayed through FileParser.parse_file; GenC01 programs rendered as Fortran replayed through finder.find",
+    text="Every sequence of line templates up to the bound (and simulated longer texts) that the reference scanner "
+         "accepts is parsed by the real FileParser as a .f90 file and compared on counted lines and directive extents; "
+         "the conditional-selection clause reuses C01's enumerated programs rendered as Fortran and compares per line; "
+         "gfortran -cpp -E validates the expected selection on a sample. No product-automaton fixpoint was built for the "
+         "Fortran cleaner (unlike C05), so this is exhaustive only up to the line bound.",
+    design="3/C17")
+
 PENDING_REASON = "check not built yet (build in progress; see DESIGN.md section 7)"
 
 
